@@ -185,6 +185,22 @@ void h_lookup(void) {
   ASSERT(unchanged(), "lookups change nothing");
   ASSERT(Table_Len(t) == (size_t)old_len && Table_Key_Type(t) == ELEM && Table_Val_Type(t) == ELEM, "[C02] len is the number of bindings");
 }
+/* lookup with one of the table's own embedded objects as the key: a key object handed out by iteration, or a value object handed
+ * out by get (following links: get(t, get(t, k))). The map is keyed by value: the answer is the value bound to the key equal to it. */
+void h_lookup_own(void) {
+  arbitrary_table(); __CPROVER_assume(NS > 0);
+  size_t gh_s = nondet_ulong(); __CPROVER_assume(gh_s < NS && slot(t, gh_s)->h != 0);
+  bool use_val = nondet_bool();
+  var key = use_val ? (var)&slot(t, gh_s)->v : (var)&slot(t, gh_s)->k;
+  int64_t want; int has = view_has(t, NS, EV(key), &want, NULL, NULL);
+  expect_throw = !has; expect_exc = KeyError;
+  COVER(use_val && has, "a value object of the table that is also a key"); COVER(!use_val, "a key object of the table");
+  var r = Table_Get(t, key);
+  ASSERT(has, "[C02][C12] get of an absent key raises KeyError");
+  ASSERT(cv_is_elem(r) && HDR(r)->alloc == (var)AllocData, "[C19] get returns an object of the value type embedded in the table");
+  ASSERT(EV(r) == want, "[C02] get with one of the table's own embedded objects as the key returns the value bound to the key equal to it");
+  ASSERT(unchanged(), "lookups change nothing");
+}
 /* rem: removes exactly the binding of k (backward shift keeps wf); shrink rehash is cut by its contract */
 static int cv_resize_less_calls; static size_t cv_resize_less_items;
 void cv_resize_less(struct Table* tt) { cv_resize_less_calls++; cv_resize_less_items = tt->nitems; }
